@@ -154,12 +154,68 @@ def items():
   return list(irgen.f_cyc())
 
 
+def hand_once_fl(call_fl):
+  """an update_once block inside a three-block cycle; with call_fl it also calls a blocking (FL) method, so it is scheduled
+  through a greenlet wrapper"""
+  from pymtl3 import Component, Wire, Bits8, update, update_once, connect, CalleeIfcFL, CallerIfcFL
+
+  class Mem(Component):
+    def construct(s):
+      s.read = CalleeIfcFL(method=s.rd)
+
+    def rd(s, a):
+      return a
+
+  class CycFL(Component):
+    def construct(s):
+      s.mem = Mem()
+      s.rd = CallerIfcFL()
+      connect(s.rd, s.mem.read)
+      s.x = Wire(Bits8); s.y = Wire(Bits8); s.z = Wire(Bits8)
+      if call_fl:
+        @update_once
+        def up1():
+          s.x @= s.rd(s.z) | 1
+      else:
+        @update_once
+        def up1():
+          s.x @= s.z | 1
+
+      @update
+      def up2():
+        s.y @= s.x
+
+      @update
+      def up3():
+        s.z @= s.y
+  return CycFL
+
+
+def check_hand(acc):
+  from pymtl3.passes.PassGroups import DefaultPassGroup
+  from pymtl3.passes.mamba.PassGroups import Mamba2020
+  for call_fl in (0, 1):
+    for g, mk in (("dynamic", lambda: DefaultPassGroup()), ("mamba", lambda: Mamba2020(print_line_trace=False))):
+      t = hand_once_fl(call_fl)()
+      t.elaborate()
+      acc.count("executions"); acc.count("designs" if g == "dynamic" else "hand_runs"); acc.add("kinds", "once")
+      try:
+        t.apply(mk())
+        acc.violation(f"{g}:update_once-in-cycle-accepted:hand-fl{call_fl}", dict(hand="once_fl", call_fl=call_fl, group=g), "UpblkCyclicError", "scheduled")
+      except Exception as ex:
+        if is_cyclic_error(ex): acc.count("once_rejected")
+        else: acc.violation(f"{g}:scheduling-raised:hand-fl{call_fl}", dict(hand="once_fl", call_fl=call_fl, group=g), "UpblkCyclicError", repr(ex)[:200])
+
+
 def shards(tier):
-  return list(range(len(items())))
+  return list(range(len(items()))) + ["hand"]
 
 
 def run_shard(shard, tier, seed):
   acc = Acc()
+  if shard == "hand":
+    check_hand(acc)
+    return acc
   name, d, expect = items()[shard]
   check_design(name, d, expect, tier, acc)
   if shard % 8 == 0: acc.sample(dict(design=name, expect=expect, source=ir.emit(d, "x")[0].splitlines()[-10:]))
@@ -168,6 +224,9 @@ def run_shard(shard, tier, seed):
 
 def replay(case):
   acc = Acc()
+  if case.get("hand"):
+    check_hand(acc)
+    return [(v["sig"], v["expected"], v["observed"], v["msg"]) for v in acc.violations if v["case"] == case]
   d = ir.norm_comp(case["ir"])
   check_design(case["design"], d, case["expect"], case.get("tier", "quick"), acc, only_group=case.get("group"))
   return [(v["sig"], v["expected"], v["observed"], v["msg"]) for v in acc.violations]
